@@ -626,7 +626,20 @@ func (ch c10) runCase(c *core.Ctx, envPlain, envAuth *hs.Env, k c10case, idx int
 			c.Eval(k.sig()+" pipelined", nt)
 			return
 		}
-		if _, ok := expect("oversized message", msg, want...); !ok {
+		if idx%5 == 3 && len(k.Cuts) == 0 {
+			// a transport without a buffer of its own and a client that writes the whole message before it
+			// reads: the answer can only be written once the message has been consumed
+			cl.C.SyncWrites = true
+			c.Count("oversized_over_unbuffered_transport", 1)
+		}
+		_, ok := expect("oversized message", msg, want...)
+		if cl.C.Deadlocked() {
+			viol("wedge", "oversized message answered before it was consumed: over a transport without buffering the server waits for the client to read while the client waits for the server to take the rest of the message", fmt.Sprintf("type %c size %s position %s", k.Type, k.SizeN, k.Pos))
+			cl.C.Unstick()
+			return
+		}
+		cl.C.SyncWrites = false
+		if !ok {
 			return
 		}
 		for _, e := range cl.C.Events()[evStart:] {
